@@ -1,5 +1,82 @@
-/- C13 driver part (stub until the join model lands) -/
-structure JoinSt where
-  dummy : Unit
-def JoinSt.init : JoinSt := ⟨()⟩
-def stepJoin (st : JoinSt) (_ws : List String) : JoinSt × String := (st, "bad-op")
+/-
+C13 part of `hvdrv_pull` (see harness/hv_pull/src/c13.rs for the op lines).
+-/
+import HvPull.Model.Join
+open HvPull
+
+abbrev HalfN := Half Nat Nat Nat
+
+inductive CurTick where
+  | none
+  | inc (st : JoinSt Nat Nat Nat)
+  /-- new-tick future / resolved pull; `resolved`, `enumerated` -/
+  | new (st : NewSt Nat Nat Nat) (resolved : Bool) (enumerated : Bool)
+
+structure JDrv where
+  kind : Option Bool
+  ls : HalfN
+  rs : HalfN
+  cur : CurTick
+
+def JDrv.init : JDrv := ⟨none, Half.empty, Half.empty, .none⟩
+
+def parsePairItem (s : String) : Option (Nat × Nat) :=
+  match s.splitOn "." with
+  | [a, b] => do pure ((← a.toNat?), (← b.toNat?))
+  | _ => none
+
+/-- a script of pairs without `e` -/
+def parsePairScript (s : String) : Option (Src (Nat × Nat)) :=
+  if s == "-" then some [] else
+  (s.splitOn ",").mapM fun t =>
+    if t == "p" then some Step.pending
+    else if t.startsWith "r" then (parsePairItem (t.drop 1).toString).map Step.ready
+    else none
+
+def showOut (x : Nat × Nat × Nat) : String := s!"({x.1},({x.2.1},{x.2.2}))"
+
+def showTable (t : Table Nat Nat) : String :=
+  let t := t.mergeSort (fun a b => a.1 ≤ b.1)
+  if t.isEmpty then "-" else
+  ";".intercalate (t.map fun (k, vs) => s!"{k}={",".intercalate (vs.map toString)}")
+
+def stepJoin (st : JDrv) (ws : List String) : JDrv × String :=
+  match ws, st.kind, st.cur with
+  | ["state", k], none, _ =>
+    if k == "set" then ({ st with kind := some true }, "ok")
+    else if k == "multi" then ({ st with kind := some false }, "ok")
+    else (st, "bad-op")
+  | ["tick", m, l, r], some _, .none =>
+    match parsePairScript l, parsePairScript r with
+    | some l, some r =>
+      if m == "inc" then ({ st with cur := .inc ⟨l, r, st.ls, st.rs⟩ }, "ok")
+      else if m == "new" then ({ st with cur := .new ⟨l, r, st.ls, st.rs, 0⟩ false false }, "ok")
+      else (st, "bad-op")
+    | _, _ => (st, "bad-op")
+  | ["poll"], some set, .inc j =>
+    let (j', a) := joinStep set j
+    ({ st with cur := .inc j' },
+      match a with
+      | .ready x => s!"R {showOut x}"
+      | .pending => "P"
+      | .ended => "E")
+  | ["poll"], some set, .new n false e =>
+    let (n', done) := newTickPoll set n
+    ({ st with cur := .new n' done e }, if done then "resolved" else "P")
+  | ["enum"], some _, .new n true false =>
+    let outs := (newTickJoin n.ls n.rs).mergeSort (fun a b => a.1 ≤ b.1)
+    ({ st with cur := .new n true true },
+      if outs.isEmpty then "-" else ";".intercalate (outs.map showOut))
+  | ["endtick", c], some _, cur =>
+    let ok := c == "none" || c == "l" || c == "r" || c == "lr"
+    let cl := c == "l" || c == "lr"
+    let cr := c == "r" || c == "lr"
+    let fin (ls rs : HalfN) : JDrv × String :=
+      ({ st with ls := if cl then ls.clear else ls, rs := if cr then rs.clear else rs, cur := .none }, "ok")
+    match ok, cur with
+    | true, .inc j => fin j.ls j.rs
+    | true, .new n _ _ => fin n.ls n.rs
+    | _, _ => (st, "bad-op")
+  | ["len"], some _, .none => (st, s!"l={st.ls.len} r={st.rs.len}")
+  | ["dump"], some _, .none => (st, s!"L:{showTable st.ls.table} R:{showTable st.rs.table}")
+  | _, _, _ => (st, "bad-op")
